@@ -307,6 +307,10 @@ class Parser:
                     comments=list(self.comments),
                     n_out=len(self.tables),
                 )
+        if self.set_line:
+            # a SET statement on the last line: there is no following line to flush it
+            self.process_set()
+            self.set_line = None
         if self.comments:
             self.tables.append({"comments": self.comments})
         return self.tables
